@@ -180,9 +180,10 @@ theorem C18_create_upload_refines_partial (H : Hashes) (dl : Nat) {s : State} (h
       (StoreSpec.step H (abs s) (.createMultipartUpload who b k md)).1 ∧
     Inv (step H dl s (.createMultipartUpload who b k md)).1 := createUpload_refines H dl hi hg
 
-/-- upload_part: only the creating identity may add a part (`AccessDenied` otherwise). Partial — excluded: part numbers
-    below 1 (fs:part-number-not-validated), unknown uploads (fs:unknown-upload-code), another key than the upload's
-    (fs:upload-not-bound-to-key) -/
+/-- upload_part: only the creating identity may add a part (`AccessDenied` otherwise); an upload that does not exist — never
+    issued, completed, aborted, or an id that is no UUID — is `NoSuchUpload` on both sides (38336b0; before:
+    fs:unknown-upload-code). Partial — excluded: part numbers below 1 (fs:part-number-not-validated), another key than the
+    upload's (fs:upload-not-bound-to-key) -/
 theorem C18_upload_part_refines_partial (H : Hashes) (dl : Nat) {s : State} (hi : Inv s) {who : Who} {b k : Bytes}
     {u : UploadRef} {n : Int} {c : Bytes} (hg : UploadPartOk s b k u n) :
     (step H dl s (.uploadPart who b k u n c)).2 = (StoreSpec.step H (abs s) (.uploadPart who b k u n c)).2 ∧
@@ -191,7 +192,8 @@ theorem C18_upload_part_refines_partial (H : Hashes) (dl : Nat) {s : State} (hi 
 
 /-- upload_part_copy: the part becomes the source object, or its `bytes=first-last` slice. Partial — excluded: ranges the
     store refuses but the backend accepts (open-ended, beyond the end: fs:part-copy-range-unchecked; malformed ranges
-    are not covered), part numbers outside 1..10000, and as for upload_part -/
+    are not covered), part numbers outside 1..10000, another key than the upload's; an upload that does not exist is
+    `NoSuchUpload` on both sides -/
 theorem C18_upload_part_copy_refines_partial (H : Hashes) (dl : Nat) {s : State} (hi : Inv s) {who : Who} {b k : Bytes}
     {u : UploadRef} {n : Int} {sb sk : Bytes} {range : Option Bytes} (hg : UploadPartCopyOk s b k u n sb sk range) :
     (step H dl s (.uploadPartCopy who b k u n sb sk range)).2 =
@@ -200,8 +202,10 @@ theorem C18_upload_part_copy_refines_partial (H : Hashes) (dl : Nat) {s : State}
       (StoreSpec.step H (abs s) (.uploadPartCopy who b k u n sb sk range)).1 ∧
     Inv (step H dl s (.uploadPartCopy who b k u n sb sk range)).1 := uploadPartCopy_refines H dl hi hg
 
-/-- list_parts (part numbers and sizes, ascending). Partial — excluded: unknown uploads (fs:list-parts-unknown-upload); the
-    order in which the real code returns parts is not part of the model (fs:list-parts-unordered) -/
+/-- list_parts (part numbers and sizes, ascending); of an upload that does not exist: `NoSuchUpload` on both sides (38336b0;
+    before, an empty list: fs:list-parts-unknown-upload). Partial — excluded: another key than the upload's
+    (fs:upload-not-bound-to-key); the order in which the real code returns parts is not part of the model
+    (fs:list-parts-unordered) -/
 theorem C18_list_parts_refines_partial (H : Hashes) (dl : Nat) {s : State} (hi : Inv s) {who : Who} {b k : Bytes}
     {u : UploadRef} (hg : ListPartsOk s b k u) :
     (step H dl s (.listParts who b k u)).2 = (StoreSpec.step H (abs s) (.listParts who b k u)).2 ∧
@@ -209,7 +213,8 @@ theorem C18_list_parts_refines_partial (H : Hashes) (dl : Nat) {s : State} (hi :
     Inv (step H dl s (.listParts who b k u)).1 := listParts_refines H dl hi hg
 
 /-- complete_multipart_upload: the object becomes the concatenation of the listed parts in part order with the upload's
-    metadata, the upload is gone; an identity other than the creator gets `AccessDenied` and changes nothing; a complete by
+    metadata, the upload is gone; an identity other than the creator gets `AccessDenied` and changes nothing; an upload that
+    does not exist is `NoSuchUpload` on both sides (38336b0); a complete by
     the owner that names a part that was never uploaded (`InvalidPart`) or whose parts other than the last are below the
     minimum size (`EntityTooSmall`) is answered alike and changes nothing — the upload stays and can be completed later
     (before the repair the upload was consumed first: fs:failed-complete-consumes-upload, and a missing part was
@@ -242,7 +247,8 @@ theorem C18_complete_concatenates (id : Nat) (l : List (Option Int)) (cnt : Nat)
     exact ⟨numbered cnt cs, completeParts_ok id parts l cnt cs hc hp, by rw [numbered_contents],
       partTooSmall_numbered _ cs cnt (by omega), eraseParts_erased id _ parts⟩
 
-/-- abort_multipart_upload: only by the creator; the upload is gone. Partial — excluded: unknown uploads, other keys -/
+/-- abort_multipart_upload: only by the creator; the upload is gone; of an upload that does not exist: `NoSuchUpload` on both
+    sides. Partial — excluded: another key than the upload's (fs:upload-not-bound-to-key) -/
 theorem C18_abort_refines_partial (H : Hashes) (dl : Nat) {s : State} (hi : Inv s) {who : Who} {b k : Bytes}
     {u : UploadRef} (hg : AbortOk s b k u) :
     (step H dl s (.abortMultipartUpload who b k u)).2 = (StoreSpec.step H (abs s) (.abortMultipartUpload who b k u)).2 ∧
@@ -289,7 +295,7 @@ def bob : Who := some [66]
 
 /-- a realistic history inside `Good`: bucket, writes with and without metadata (also over an object that had some),
     whole / ranged / suffix reads (suffix longer than the object, suffix of an empty object), a copy onto itself, head
-    (of an object and of a key that does not exist), prefix listing with marker, copy, delete (also of the key just deleted), a multipart upload driven by its owner and refused to another identity, whose completion first fails twice (a listed part was never uploaded: `InvalidPart`; a part other than the last is too small: `EntityTooSmall`) and then succeeds,
+    (of an object and of a key that does not exist), prefix listing with marker, copy, delete (also of the key just deleted), a multipart upload driven by its owner and refused to another identity, whose completion first fails twice (a listed part was never uploaded: `InvalidPart`; a part other than the last is too small: `EntityTooSmall`) and then succeeds, after which the upload is unknown to every operation (`NoSuchUpload`, as is an id that was never issued or is no UUID),
     delete_bucket while the bucket holds objects (refused) and after they are deleted (the directory `d` is left behind) -/
 def demo : List Op := [
   .createBucket bka,
@@ -322,6 +328,8 @@ def demo : List Op := [
   .completeMultipartUpload alice bka kX (some 1) (some [some 1, some 2]),
   .completeMultipartUpload alice bka kX (some 1) (some [some 1]),
   .getObject bka kX none,
+  .listParts alice bka kX (some 1), .uploadPart alice bka kX (some 1) 3 [1], .abortMultipartUpload alice bka kX none,
+  .completeMultipartUpload bob bka kX (some 7) (some [some 1]),
   .createMultipartUpload bob bka kA none,
   .abortMultipartUpload bob bka kA (some 2),
   .deleteBucket bka,
